@@ -101,6 +101,8 @@ var c17Sentences = []string{
 	"var z = 1 eval z = ( z = 2 ) * - 3",
 	"print not true and nil or false",
 	"def t { x = 1 == 2 } bind t -> struct",
+	"print 1 #c\rprint 2 #d\nprint 3",
+	"def b { #open\rprint TYPE #t\r}",
 }
 
 // C17_Damage: every sentence with one token replaced by a single-byte token
